@@ -172,9 +172,9 @@ Definition ext09g (f : string) (args : list val) (kw : list (string * val)) (st 
   else if is f "$method.size" then
     match args with
     | [t; VInt d] => match dec_any t with
-                     | Some a => match nth_error (any_shape a) 0, wrap_dim (List.length (any_shape a)) d with
-                                 | _, Some k => Ok (VInt (Z.of_nat (nth k (any_shape a) 0%nat))) st
-                                 | _, None => stuck "size: dim"
+                     | Some a => match wrap_dim (List.length (any_shape a)) d with
+                                 | Some k => Ok (VInt (Z.of_nat (nth k (any_shape a) 0%nat))) st
+                                 | None => stuck "size: dim"
                                  end
                      | None => stuck "size"
                      end
